@@ -257,6 +257,11 @@ def run(rep, db, tier, seed):
     from props import c10_frames
     c10_frames.run(rep, db, tier)
     try:
+        from props import c10_timefmt
+        c10_timefmt.run(rep, db, tier)
+    except Exception as u:
+        rep.add(Obligation('decoded timestamps / durations stay usable', 'inconclusive', f'{type(u).__name__}: {u}'[:600]))
+    try:
         from props import c10_frameio
         c10_frameio.run(rep, db, 'thorough')      # every instantiation (a few paths each)
     except Exception as u:
